@@ -211,6 +211,16 @@ public:
 		if(t != cur) { noteSwitch(tag, t, false); switchTo(t); }
 	}
 
+	// For a caller that polls without holding a lock (a consumer whose wait() returns at once while another thread's processing
+	// call holds the events): give way until some other task has made progress - provided another task can run at all.
+	void spinYield(const char * tag)
+	{
+		bool other = false;
+		for(int i = 0; i < nTasks; ++i) if(i != cur && (eligible(i) || (tasks[i].st == T_CV && tasks[i].hasTimer))) other = true;
+		if(!other) { point(tag); return; }
+		spinWait(tag);
+	}
+
 	// ---------------- choices -----------------
 	// choose one of the candidate task ids (used for notify_one with several waiters)
 	int chooseAmong(const std::vector<int> & cands)
@@ -342,7 +352,9 @@ private:
 	void tick(const char * tag)
 	{
 		++steps; now += cfg.quantumNs;
-		(void)tag;
+		// VERIF_TRACE=1: every scheduling point on stderr (for inspecting a replayed seed; reads no clock and draws no random number)
+		static const bool traceOn = std::getenv("VERIF_TRACE") != nullptr;
+		if(traceOn) std::fprintf(stderr, "%ld t%d %s\n", (long)steps, cur, tag);
 		if(steps > cfg.stepCap) { fail("step-cap", "run exceeded the scheduling-point cap (livelock?)"); }
 	}
 
